@@ -25,6 +25,7 @@ func init() {
 type lockProg struct {
 	Op   string        `json:"op"` // lock | trylock
 	Hold time.Duration `json:"hold"`
+	Deadline bool      `json:"caller_deadline,omitempty"` // the caller's context carries its own, later deadline (60 s), as a request context does
 }
 
 type c18Case struct {
@@ -66,6 +67,11 @@ func contender(name string, p lockProg, lockTTL time.Duration) schedThread {
 			mon.mu.Unlock()
 			return
 		}
+		if p.Deadline {
+			var cancel context.CancelFunc
+			ctx, cancel = context.WithTimeout(ctx, time.Minute)
+			defer cancel()
+		}
 		start := x.Now()
 		mon.mu.Lock()
 		heldAtStart := len(mon.inCS) > 0
@@ -92,6 +98,9 @@ func contender(name string, p lockProg, lockTTL time.Duration) schedThread {
 			// the cluster unlocks a lock object whose Lock failed (doLock's rollback)
 			_ = lk.Unlock(ctx)
 			return
+		}
+		if p.Op == "lock" && elapsed > lockTTL+time.Second {
+			mon.viol = append(mon.viol, fmt.Sprintf("lock-acquired-after-wait-timeout|%s: Lock returned the lock after waiting %v, the wait timeout is %v", name, elapsed, lockTTL))
 		}
 		if len(mon.inCS) > 0 {
 			others := ""
@@ -122,7 +131,7 @@ func c18Explore(t *testing.T, c *vcore.Ctx) {
 	if dir == "" {
 		dir = t.TempDir()
 	}
-	c.SetRule("contenders on one key, each = (Lock | TryLock) then critical section (hold 0 / 1 s / long) then Unlock, on separate lock objects from Store.CreateLock with TTL = wait timeout = 5 s, plus a holder staying 2.2 s inside a 2.5 s lease; etcd and redis backends; every interleaving of their backend requests (2 contenders: all; 3 contenders: preemption bound 2); non-trivial = distinct schedules in which at least two contenders' requests interleave")
+	c.SetRule("contenders on one key, each = (Lock | TryLock) then critical section (hold 0 / 1 s / long) then Unlock, on separate lock objects from Store.CreateLock with TTL = wait timeout = 5 s, plus a holder staying 2.2 s inside a 2.5 s lease, plus a waiter whose context carries its own later deadline; etcd and redis backends; every interleaving of their backend requests (2 contenders: all; 3 contenders: preemption bound 2); non-trivial = distinct schedules in which at least two contenders' requests interleave")
 	c.Assume("etcd = memetcd under the real clientv3/concurrency recipe (keep-alive loop runs under virtual time); redis = miniredis (TTL moved with FastForward together with virtual time)")
 	c.Assume("holders stay within the lock's lease: on redis the long hold is 4 s < TTL, on etcd the session keeps the lease alive so the long hold is 7 s > wait timeout")
 	b := world.NewBackend(dir, true)
@@ -159,15 +168,19 @@ func c18Explore(t *testing.T, c *vcore.Ctx) {
 		// a lease that is not a whole number of seconds: the holder stays inside it (2.2 s < 2.5 s) but
 		// beyond its whole-second part
 		for _, op := range []string{"lock", "trylock"} {
-			cases = append(cases, c18Case{Backend: be, TTL: 2500 * time.Millisecond, Progs: []lockProg{{"lock", 2200 * time.Millisecond}, {op, 0}}, Bound: -1})
+			cases = append(cases, c18Case{Backend: be, TTL: 2500 * time.Millisecond, Progs: []lockProg{{Op: "lock", Hold: 2200 * time.Millisecond}, {Op: op}}, Bound: -1})
 		}
+		// a waiter whose own context has a later deadline than the lock's wait timeout, behind a holder that
+		// keeps the lock longer than that timeout (etcd) / almost as long (redis)
+		cases = append(cases, c18Case{Backend: be, Progs: []lockProg{{Op: "lock", Hold: long}, {Op: "lock", Deadline: true}}, Bound: -1},
+			c18Case{Backend: be, Progs: []lockProg{{Op: "lock", Hold: long}, {Op: "trylock", Deadline: true}}, Bound: -1})
 		// three contenders, preemption bound 2
 		triples := [][]lockProg{
-			{{"lock", 0}, {"lock", 0}, {"trylock", 0}},
-			{{"lock", time.Second}, {"lock", 0}, {"lock", 0}},
+			{{Op: "lock"}, {Op: "lock"}, {Op: "trylock"}},
+			{{Op: "lock", Hold: time.Second}, {Op: "lock"}, {Op: "lock"}},
 		}
 		if c.Thorough() {
-			triples = append(triples, []lockProg{{"lock", long}, {"lock", time.Second}, {"trylock", time.Second}}, []lockProg{{"trylock", 0}, {"trylock", 0}, {"lock", 0}})
+			triples = append(triples, []lockProg{{Op: "lock", Hold: long}, {Op: "lock", Hold: time.Second}, {Op: "trylock", Hold: time.Second}}, []lockProg{{Op: "trylock"}, {Op: "trylock"}, {Op: "lock"}})
 		}
 		for _, tr := range triples {
 			bound := 2
